@@ -365,6 +365,9 @@ def step (s : DState) (line : String) : DState × List String :=
     match cmd.splitOn " " with
     | "assert" :: _ =>
       if impl == "ok" then (s, []) else diff s "SPEC" s!"{cmd}: {impl}"
+    | "nestseq" :: t :: selArgs =>
+      -- one sequence value ranged over again from inside its own loop body: two complete passes
+      handleSeq s t selArgs "0" "2" impl
     | "selfseq" :: t :: _ =>
       -- a sequence judged against itself by the harness (complete passes agree, abandoned passes are their start)
       withTree s t fun _ _ => if impl == "ok" then (s, []) else diff s "SPEC" s!"{cmd}: {impl}"
